@@ -631,7 +631,7 @@ package node_info
 // the list occupies the node, the node accounting does not move at all.  Every pod of the list is registered in
 // existingPodsMap under its UID and returned, in order.
 //@ func (*NodeInfo).AddTasksToNode
-//@   props WIPcache
+//@   props C14 C01 C12 C10
 //@   requires nodeWF(ni) && podsWF(ni) && existingPodsMap != nil && existingPodsMap != ni.PodInfos
 //@   requires tasksAddable(ni, podInfos, 0)
 //@   modifies existingPodsMap[*], family(podInfos[0].AcceptedResource), family(podInfos[0].ResourceReceivedType), ni.PodInfos[*], ni.LegacyMIGTasks[*], ni.Used.milliCpu, ni.Used.memory, ni.Used.gpus, ni.Used.scalarResources[*], ni.Idle.milliCpu, ni.Idle.memory, ni.Idle.gpus, ni.Idle.scalarResources[*], ni.Releasing.milliCpu, ni.Releasing.memory, ni.Releasing.gpus, ni.Releasing.scalarResources[*], ni.UsedVector[*], ni.IdleVector[*], ni.ReleasingVector[*], ni.UsedSharedGPUsMemory[*], ni.ReleasingSharedGPUsMemory[*], ni.AllocatedSharedGPUsMemory[*], ni.ReleasingSharedGPUs[*], sumIdleGPUs(ni), sumIdleGPUMem(ni), sumReleasingGPUs(ni), sumReleasingGPUMem(ni)
